@@ -159,6 +159,8 @@ def op_binary(eng, task):
     xs = []
     for k, (kind, P, qD) in enumerate(zip(kinds, (P0, P1), qDs)):
         xs.append((tn.sym_mps if kind == 'mps' else tn.sym_mpo)(eng, f'X{k}_', d, P, qd if k == 0 else qd.copy(), qD))
+    if task.get('same'):
+        xs[1] = xs[0]           # the very same object on both sides (psi + psi, op - op, op @ op)
     inputs = dict(op=which, x0=tn.mps_json(xs[0]), x1=tn.mps_json(xs[1]))
     snap = snapshot(arrays_of(xs))
     if which in ('add_mps', 'add_mpo'):
@@ -326,6 +328,9 @@ def op_tasks(tier):
         ts.append(dict(name=f'{which}_L2', op='binary', which=which, d=2, D=(1, 2, 1) if which in ('add_mps', 'sub_mps') else (1, 1, 1), D1=(1, 1, 1), cut=9))
         if not q:
             ts.append(dict(name=f'{which}_L3', op='binary', which=which, d=2, D=(1, 1, 1, 1), D1=(1, 1, 1, 1), cut=10))
+    for which in ('add_mps', 'sub_mps', 'add_mpo', 'sub_mpo', 'matmul'):
+        ts.append(dict(name=f'{which}_same_L2', op='binary', which=which, same=True, d=2, D=(1, 2, 1) if which in ('add_mps', 'sub_mps') else (1, 1, 1),
+                       D1=(1, 2, 1) if which in ('add_mps', 'sub_mps') else (1, 1, 1), cut=9))
     for distr in ('left', 'right', 'sqrt'):
         ts.append(dict(name=f'split_{distr}', op='split', distr=distr, d0=2, d1=1, D0=1, D2=2, cut=8))
     for L in (1, 2) if q else (1, 2, 3):
